@@ -25,7 +25,12 @@ pub fn gen(seed: u64, _idx: u64, tier: Tier) -> Scenario {
     let np = r.range(1, 6) as usize;
     let chans: Vec<&[u8]> = (0..nch).map(|_| *r.pick(CHANNELS)).collect();
     let pats: Vec<&[u8]> = (0..np).map(|_| *r.pick(PATTERNS)).collect();
-    for c in 0..nsub + npub { sc.steps.push(Step::Connect { c, inst: 0, buf: 0 }); }
+    // flow control on the push path: small socket buffers, messages larger than them, and transient
+    // outcomes (EINTR / EAGAIN / short transfer) of the server's reads and writes on a subscriber's socket
+    let flow = r.chance(1, 3);
+    sc.knobs.insert("flow".into(), flow as i64);
+    let buf = if flow { *r.pick(&[4096usize, 4096, 16384]) } else { 0 };
+    for c in 0..nsub + npub { sc.steps.push(Step::Connect { c, inst: 0, buf: if c < nsub { buf } else { 0 } }); }
     let mut uniq = 0u64;
     let n = match tier { Tier::Quick => r.range(8, 60), Tier::Thorough => r.range(8, 120) };
     let mut closed = vec![false; nsub];
@@ -38,6 +43,12 @@ pub fn gen(seed: u64, _idx: u64, tier: Tier) -> Scenario {
             4 => { let c = r.below(nsub as u64) as usize; if closed[c] { continue; } sc.steps.push(Step::Send { c, a: vec![b("UNSUBSCRIBE")], split: vec![] }); }
             5 => { let c = r.below(nsub as u64) as usize; if closed[c] { continue; } sc.steps.push(Step::Send { c, a: vec![b("PUNSUBSCRIBE")], split: vec![] }); }
             6 => { let p = nsub + r.below(npub as u64) as usize; uniq += 1; let mut payload = format!("msg-{}-", uniq).into_bytes(); match r.below(4) { 0 => payload.extend_from_slice(&[0, 255, 13, 10]), 1 => payload.extend_from_slice(b"\r\n+OK\r\n"), 2 => {} _ => payload.extend(vec![b'z'; r.below(200) as usize]) }
+                   if flow && r.chance(1, 2) { let n = *r.pick(&[900usize, 3000, 4096, 6000, 20000]); payload.resize(payload.len() + n, b'p'); }
+                   if flow && r.chance(1, 4) {
+                       let fop = if r.chance(3, 4) { crate::world::Op::Send } else { crate::world::Op::Recv };
+                       let action = match r.below(4) { 0 => crate::world::Action::Errno(libc::EINTR), 1 => crate::world::Action::Errno(libc::EAGAIN), 2 => crate::world::Action::Short(1), _ => crate::world::Action::Short(*r.pick(&[2usize, 7, 100, 1000])) };
+                       sc.steps.push(Step::Arm { fop, conn: Some(r.below(nsub as u64) as usize), class: None, nth: r.below(3), action, inst: 0 });
+                   }
                    sc.steps.push(Step::Send { c: p, a: vec![b("PUBLISH"), B(r.pick(&chans).to_vec()), B(payload)], split: vec![] }); }
             7 => sc.steps.push(Step::Turns { n: r.range(1, 2) as u32 }),
             _ => { let c = r.below(nsub as u64) as usize; if nsub > 1 && !closed[c] { closed[c] = true; sc.steps.push(Step::Close { c, half: false }); } }
@@ -177,11 +188,17 @@ pub fn exec(sc: &Scenario) -> Outcome {
                 } }
             }
             Step::Turns { n } => { for _ in 0..*n { h.turn(); turn_no += 1; reconcile(&mut h, &mut cl, turn_no, &mut group, &mut mismatch); } }
+            Step::Arm { fop, conn, nth, action, .. } => { if let Some(s) = conn.and_then(|c| cl.get(&c)) { if s.closed_at.is_none() { let (inst, sim) = (h.inst, s.sim); h.sim.arm(inst, *fop, Some(sim), None, *nth, *action); h.count("syscall_faults_armed", 1); } } }
             Step::Close { c, .. } => { h.turn(); turn_no += 1; reconcile(&mut h, &mut cl, turn_no, &mut group, &mut mismatch); if let Some(s) = cl.get_mut(c) { s.closed_at = Some(turn_no); let sim = s.sim; h.sim.close(sim, CloseHow::Close); h.count("probe_subscriber_disconnected", 1); } }
             _ => {}
         }
     }
-    for _ in 0..6 { if mismatch { break; } h.turn(); turn_no += 1; reconcile(&mut h, &mut cl, turn_no, &mut group, &mut mismatch); }
+    // (with small socket buffers a large message needs several turns to get through: wait while something is still owed)
+    for t in 0..80 {
+        if mismatch { break; }
+        if t >= 6 && cl.values().all(|s| s.closed_at.is_some() || s.expected.is_empty()) { break; }
+        h.turn(); turn_no += 1; reconcile(&mut h, &mut cl, turn_no, &mut group, &mut mismatch);
+    }
     if !mismatch {
         for (c, s) in cl.iter() {
             if s.closed_at.is_some() { continue; }
@@ -198,7 +215,7 @@ fn n_deliveries_expected(d: i64, m: i64) -> Option<i64> { if d + m > 0 { Some(d)
 pub static DEF: CheckDef = CheckDef {
     id: "C14", level: "exploration", gen, exec,
     nontrivial: |o| o.counters.get("publishes_with_receivers").copied().unwrap_or(0) >= 1 && o.counters.get("cmds").copied().unwrap_or(0) >= 6,
-    rule: "one run = 1-4 subscriber connections and 1-2 publisher connections over 2-6 channels and 1-6 glob patterns drawn from pools with overlaps (*, ?, [a-c], [^a], escapes, a literal * in a channel name, the empty channel, binary names): SUBSCRIBE/PSUBSCRIBE with several names, UNSUBSCRIBE/PUNSUBSCRIBE named, repeated, of never-subscribed names and without arguments, PUBLISH of uniquely numbered payloads incl. NUL/CR/LF/0xFF bytes, subscribers disconnecting; requests of several connections are delivered before the same loop turn. From the server's read order the exact execution order is known; the model (harness' own glob matcher) yields for every subscriber the exact ordered sequence of acknowledgement and push frames - one message per matching channel subscription and one pmessage per matching pattern held at the moment of the PUBLISH (frames of one PUBLISH compared as a multiset), acknowledgements with the remaining subscription count - and for every PUBLISH the number of deliveries (a just-disconnected subscriber counts as maybe for 3 turns); everything received must match frame by frame, nothing may be missing or surplus at the end; non-trivial = at least one PUBLISH with a receiver",
+    rule: "one run = 1-4 subscriber connections and 1-2 publisher connections over 2-6 channels and 1-6 glob patterns drawn from pools with overlaps (*, ?, [a-c], [^a], escapes, a literal * in a channel name, the empty channel, binary names): SUBSCRIBE/PSUBSCRIBE with several names, UNSUBSCRIBE/PUNSUBSCRIBE named, repeated, of never-subscribed names and without arguments, PUBLISH of uniquely numbered payloads incl. NUL/CR/LF/0xFF bytes, subscribers disconnecting; requests of several connections are delivered before the same loop turn. From the server's read order the exact execution order is known; the model (harness' own glob matcher) yields for every subscriber the exact ordered sequence of acknowledgement and push frames - one message per matching channel subscription and one pmessage per matching pattern held at the moment of the PUBLISH (frames of one PUBLISH compared as a multiset), acknowledgements with the remaining subscription count - and for every PUBLISH the number of deliveries (a just-disconnected subscriber counts as maybe for 3 turns); everything received must match frame by frame, nothing may be missing or surplus at the end; in a third of the runs the subscribers' sockets have 4-16 KiB buffers, payloads grow to 1-20 KB (a push no longer fits into one write) and single reads / writes of the server on a subscriber's socket fail with EINTR / EAGAIN or transfer only 1..1000 bytes - none of which may lose, duplicate, reorder or damage a pushed frame; non-trivial = at least one PUBLISH with a receiver",
     quick_budget_s: 40.0, thorough_budget_s: 900.0, quick_max_runs: 1_000_000, thorough_max_runs: 100_000_000, exhaustive: false, exhaustive_after: |_| 0,
     real: REAL_WHOLE_SERVER, stub: STUB_WHOLE_SERVER, assumptions: ASSUME_COMMON,
 };
